@@ -279,6 +279,108 @@ def mcp_serve_killed(ctx, rng):
     return stats
 
 
+def mcp_symlinked_config(ctx, rng):
+    """the real binary, `hookaido mcp serve --config <a symbolic link>`: the configured path is the link.  Writing tools may change what
+    that path holds; the file the link pointed to - in another directory - is not the configured path and must stay byte for byte what
+    it was, and nothing may appear next to it.  (Role admin, mutations enabled: the calls are permitted.)"""
+    import subprocess
+    import select
+    hk = os.path.join(ctx.scratch, "hk-mcp")
+    if not os.path.exists(hk):
+        rc, log = C.run(["go", "build", "-o", hk, "./cmd/hookaido"], cwd=C.REPO, env=C.GOENV, timeout=1200)
+        if rc != 0:
+            raise RuntimeError("building cmd/hookaido failed: " + log[-1500:])
+    stats = {"cases": 0, "calls": 0, "writes_reported": 0}
+    original = 'ingress {\n  listen ":18080"\n}\npull_api {\n  listen ":19443"\n  auth token "raw:t"\n}\n"/hooks" {\n  pull { path /pull/h }\n}\n'
+    changed = original.replace("/pull/h", "/pull/changed")
+
+    def frame(o):
+        b = json.dumps(o).encode()
+        return b"Content-Length: %d\r\n\r\n" % len(b) + b
+
+    def read_frame(f, timeout=15.0):
+        hdr = b""
+        while not hdr.endswith(b"\r\n\r\n"):
+            r, _, _ = select.select([f], [], [], timeout)
+            if not r:
+                return None
+            ch = os.read(f.fileno(), 1)
+            if not ch:
+                return None
+            hdr += ch
+        n = int(re.search(rb"Content-Length: (\d+)", hdr).group(1))
+        body = b""
+        while len(body) < n:
+            r, _, _ = select.select([f], [], [], timeout)
+            if not r:
+                return None
+            chunk = os.read(f.fileno(), n - len(body))
+            if not chunk:
+                return None
+            body += chunk
+        return json.loads(body)
+    calls = [("config_apply", {"content": changed, "mode": "write_only"}),
+             ("management_endpoint_upsert", {"application": "app1", "endpoint_name": "ep1", "route": "/hooks", "reason": "verif", "actor": "ops@example.test"}),
+             ("config_apply", {"content": original, "mode": "write_only"})]
+    for kind in ("link-to-other-dir", "link-chain", "relative-link"):
+        d = os.path.join(ctx.scratch, "mcplink-" + kind)
+        shared = os.path.join(d, "shared")
+        live = os.path.join(d, "live")
+        os.makedirs(shared, exist_ok=True)
+        os.makedirs(live, exist_ok=True)
+        foreign = os.path.join(shared, "shared.Hookaidofile")
+        open(foreign, "w").write(original)
+        cfg = os.path.join(live, "Hookaidofile")
+        if kind == "link-to-other-dir":
+            os.symlink(foreign, cfg)
+        elif kind == "relative-link":
+            os.symlink(os.path.join("..", "shared", "shared.Hookaidofile"), cfg)
+        else:
+            mid = os.path.join(live, "mid.link")
+            os.symlink(foreign, mid)
+            os.symlink(mid, cfg)
+        before_dir = sorted(os.listdir(shared))
+        p = subprocess.Popen([hk, "mcp", "serve", "--config", cfg, "--db", os.path.join(d, "q.db"), "--role", "admin", "--principal", "ops@example.test",
+                              "--enable-mutations"], stdin=subprocess.PIPE, stdout=subprocess.PIPE, stderr=subprocess.PIPE, cwd=live)
+        answers = []
+        try:
+            for i, (tool, args) in enumerate(calls):
+                p.stdin.write(frame({"jsonrpc": "2.0", "id": i + 1, "method": "tools/call", "params": {"name": tool, "arguments": args}}))
+                p.stdin.flush()
+                resp = read_frame(p.stdout)
+                if resp is None:
+                    break
+                stats["calls"] += 1
+                txt = json.dumps(resp)
+                answers.append({"tool": tool, "is_error": bool((resp.get("result") or {}).get("isError")) or "error" in resp, "text": txt[:400]})
+                foreign_now = open(foreign).read() if os.path.exists(foreign) else None
+                if foreign_now != original or sorted(os.listdir(shared)) != before_dir:
+                    C.report(ctx, "mcp-config-symlink:%s" % tool,
+                             "hookaido mcp serve --config %s (a symbolic link, %s): after %s the file the link pointed to, %s, %s and its directory lists %s (before: %s); "
+                             "the configured path is the link, only what IT holds may change" % (
+                                 cfg, kind, tool, foreign, "holds other bytes" if foreign_now is not None else "is gone", sorted(os.listdir(shared)), before_dir),
+                             {"kind": "request", "case": {"layout": kind, "calls": [c_[0] for c_ in calls[:i + 1]]},
+                              "observed": {"foreign_content": foreign_now, "answers": answers}, "expected": {"foreign_content": original}})
+                    break
+        finally:
+            try:
+                p.stdin.close()
+            except OSError:
+                pass
+            try:
+                p.wait(timeout=10)
+            except subprocess.TimeoutExpired:
+                p.kill()
+                p.wait()
+        if not answers:
+            raise RuntimeError("hookaido mcp serve (symlinked config, %s) answered nothing: %s" % (kind, p.stderr.read()[-400:]))
+        stats["cases"] += 1
+        stats["writes_reported"] += sum(1 for a in answers if not a["is_error"])
+        if all(a["is_error"] for a in answers):
+            raise RuntimeError("symlinked config (%s): every writing call was refused, nothing was exercised: %s" % (kind, answers[:2]))
+    return stats
+
+
 def main(ctx, replay):
     rng = random.Random(ctx.seed)
     info = C.prologue(ctx)
@@ -508,6 +610,7 @@ def main(ctx, replay):
     # the REAL binary (`hookaido mcp serve` over stdio, built from the working tree): mutating calls are answered, then the host kills
     # the server as MCP hosts do - every answered mutating call has its audit record on the audit stream (stderr) by then
     cov["mcp_serve_killed"] = mcp_serve_killed(ctx, rng)
+    cov["mcp_symlinked_config"] = mcp_symlinked_config(ctx, rng)
     # every call of a queue-mutation tool appends exactly one audit record, whatever it matched (real MCP server on a real database)
     from lib import c14admin
     proxy_probe = c14admin.audit_probe_proxy(ctx, info, rng, start_only=True)     # Admin-proxy mode, in the background (one call waits 5 s)
